@@ -481,7 +481,7 @@ class PathResult:
         self.notes = list(ctx.notes)
         self.decisions = list(ctx.decisions)
         self.info = info
-        self.ctx = ctx
+        self.ctx = None   # the path context (and its solver) is not retained: only pc / decisions are needed later
 
 
 def explore(run, max_paths=20000, timeout_ms=20000, base_pc=()):
